@@ -21,7 +21,7 @@ func init() {
 		Level: "model_checking",
 		Rule: "all object literals of <=4 (thorough 5) pairs over names {a,b,_p,_q} with <=2 `**` objects, all literals of 2..3 (thorough 4) distinct names out of 12 that differ only by a suffix, a digit or case (a, a!, a?, a_, a1, aa, Ab, b, _p, _p!, _p1, _Pq; listed order incl. after ** into an object or a map), and all map literals of <=4 (thorough 5) pairs over 15 key kinds (incl. two floats that print alike) plus `**map`/`**obj` combinations; " +
 			"every accessor (keys/values/items with and without private?, A, iteration, S, ==, indexing by every key, len) is evaluated by the real interpreter and compared with an ordered-dictionary model; " +
-			"non-trivial = literal with a duplicate, a private name, an embedded container or a non-scalar key; distinct = distinct literal text; round 7: A collide family enumerates every map/object literal of <=3 pairs over 7 str keys that agree position by position in the low byte of their code points and 6 non-scalar keys that are == although built differently (a literal and its bear child).",
+			"non-trivial = literal with a duplicate, a private name, an embedded container or a non-scalar key; distinct = distinct literal text; round 7: A collide family enumerates every map/object literal of <=3 pairs over 7 str keys that agree position by position in the low byte of their code points and 6 non-scalar keys that are == although built differently (a literal and its bear child).; round 8: `private?` is also given as false / nil / through an expansion / as a computed false; names of 32..130 characters take part in the listed-order family.",
 		Assumptions: []string{
 			"print order of maps is a don't-care (only the set of printed pairs is compared)",
 			"operator-named object properties and string keys naming Map's own properties are not generated",
